@@ -130,7 +130,7 @@ def ctype(t):
         key = tstr(t)
         if key not in lit_names:
             nm = 'lit%d' % len(lit_names); lit_names[key] = nm
-            body = ''.join('  %s;\n' % decl(e, 'f%d' % i) for i, e in enumerate(t.elems))
+            body = ''.join('  %s;\n' % fdecl(e, 'f%d' % i, t.packed) for i, e in enumerate(t.elems))
             lit_defs.append(('struct %s {\n%s}%s;' % (nm, body or '  char _e;\n', ' __attribute__((packed))' if t.packed else ''), t.elems))
         return 'struct ' + lit_names[key]
     if k == 'arr':
@@ -155,6 +155,17 @@ def fnptr(ft, name):
 def decl(t, name):
     if t.kind == 'ptr' and t.to.kind == 'func': return fnptr(t.to, name)
     return ctype(t) + ' ' + name
+
+def fdecl(t, name, packed):
+    """struct member declaration. An odd-width integer member (i24, i40, i48, i56: clang's storage units of bit-field
+    structs) gets LLVM's ABI alignment spelled out: CBMC gives __CPROVER_bitvector[N] size ceil(N/8) and alignment 1, so
+    without it member offsets and array strides of such structs differ from the LLVM layout (and from the native twin)."""
+    d = decl(t, name)
+    if not packed and t.kind == 'int' and t.bits not in (1, 8, 16, 32, 64) and t.bits < 64:
+        nb = (t.bits + 7) // 8; a = 1
+        while a < nb: a *= 2
+        d += ' __attribute__((aligned(%d)))' % a
+    return d
 
 # ---------------------------------------------------------------- constants / values
 class Ctx: pass
@@ -257,6 +268,17 @@ def constexpr(p, w, t, loc):
         p.eat('nsw'); p.expect('('); t1 = ptype(p); a = pvalue(p, t1, loc); p.expect(','); t2 = ptype(p); b = pvalue(p, t2, loc); p.expect(')')
         op = {'add': '+', 'sub': '-', 'and': '&', 'or': '|', 'xor': '^', 'shl': '<<', 'lshr': '>>', 'mul': '*'}[w]
         return '((%s)(%s %s %s))' % (ctype(t1), a, op, b)
+    if w == 'icmp':
+        pred = p.word(); p.expect('('); t1 = ptype(p); a = pvalue(p, t1, loc); p.expect(','); t2 = ptype(p); b = pvalue(p, t2, loc); p.expect(')')
+        o = {'eq': '==', 'ne': '!=', 'ugt': '>', 'uge': '>=', 'ult': '<', 'ule': '<=', 'sgt': '>', 'sge': '>=', 'slt': '<', 'sle': '<='}[pred]
+        if t1.kind == 'ptr':
+            if pred in ('eq', 'ne'): return '((_Bool)((void*)%s %s (void*)%s))' % (a, o, b)
+            return '((_Bool)((uintptr_t)%s %s (uintptr_t)%s))' % (a, o, b)
+        if pred[0] == 's': return '((_Bool)(%s %s %s))' % (scast(t1, a), o, scast(t1, b))
+        return '((_Bool)((%s)%s %s (%s)%s))' % (wide(t1), a, o, wide(t1), b)
+    if w == 'select':
+        p.expect('('); t0 = ptype(p); c0 = pvalue(p, t0, loc); p.expect(','); t1 = ptype(p); a = pvalue(p, t1, loc); p.expect(','); t2 = ptype(p); b = pvalue(p, t2, loc); p.expect(')')
+        return '(%s ? %s : %s)' % (c0, a, b)
     raise Exception('constexpr ' + w)
 
 # ---------------------------------------------------------------- pass 1: types, globals, function signatures
@@ -718,7 +740,7 @@ emitted = set()
 alldefs = {}
 for n, t in named.items():
     if t is None: continue
-    body = ''.join('  %s;\n' % decl(e, 'f%d' % i) for i, e in enumerate(t.elems))
+    body = ''.join('  %s;\n' % fdecl(e, 'f%d' % i, t.packed) for i, e in enumerate(t.elems))
     alldefs['struct ' + cid(n)] = ('struct %s {\n%s}%s;' % (cid(n), body or '  char _e;\n', ' __attribute__((packed))' if t.packed else ''), t.elems)
 # literal and array defs were registered lazily during ctype() calls; force registration for named struct members
 for n, t in list(named.items()):
